@@ -19,3 +19,7 @@ fn c07q_blank_chars() {
     let c: char = kani::any();
     assert!(is_blank(c) == (c != '\n' && c.is_whitespace()), "is_blank = white space but newline");
 }
+
+// native replay of a Kani counterexample (bin/vcheck replay): the generated test is included here
+#[cfg(verif_playback)]
+include!("/verif/work/k/playback/lexclass_harness.rs");
